@@ -16,7 +16,8 @@ CONSTANTS
   LayerTab,  \* Seq (layer+1) of [real : code -> id, fake : Seq(id)]
   SrcTab,    \* code -> id   (defsrc fallback)
   Opts,      \* [trans_v2, delegate, concurrent_tap_hold, rapid_event_delay, ...]
-  Caps       \* [queue, states, extra, actionq, oneshot, seqs, stack, hist, age, since]
+  Caps,      \* [queue, states, extra, actionq, oneshot, seqs, stack, hist, age, since]
+  Bug        \* "none", or the name of a seeded design error (model mutants, DESIGN 3.4)
 
 Min(a, b) == IF a < b THEN a ELSE b
 Max(a, b) == IF a > b THEN a ELSE b
@@ -164,7 +165,8 @@ OsTick(os) ==
        IF os.rnt \/ to = 0
        THEN [os |-> [os EXCEPT !.rnt = FALSE, !.timeout = 0, !.pticks = 0, !.ignore = 0,
                               !.keys = <<>>, !.other = <<>>, !.released = <<>>],
-             some |-> TRUE, rel |-> os.released]
+             some |-> TRUE,
+             rel |-> IF Bug = "os_release_dropped" /\ Len(os.released) > 1 THEN Tail(os.released) ELSE os.released]
        ELSE [os |-> [os EXCEPT !.ignore = ig, !.timeout = to], some |-> FALSE, rel |-> <<>>]
 
 \* ----- releases -----------------------------------------------------------------
@@ -177,6 +179,7 @@ ReleaseCoordRec(ss, x, y, withClear, ce) ==
            \* `!s.clear_on_next_release() && s.release(..).is_some()` short-circuits: a
            \* cleared state does not evaluate release() (no custom event from it)
            hitCoord == ~cleared /\ s.t \in {"nk", "lm", "rs", "cu"} /\ s.x = x /\ s.y = y
+                       /\ ~(Bug = "layer_release_lost" /\ s.t = "lm" /\ \E t \in DOMAIN ss : t > 1 /\ ss[t].t = "lm")
            ce1 == IF hitCoord /\ s.t = "cu" THEN CeUpdate(ce, CeRelease(s.a, 0)) ELSE ce
            rest == ReleaseCoordRec(Tail(ss), x, y, withClear, ce1)
        IN IF cleared \/ hitCoord THEN rest
@@ -233,7 +236,7 @@ HandleHoldTap(w, queue) ==
         firstPress == IF presses = {} THEN 0 ELSE CHOOSE i \in presses : \A j \in presses : i <= j
         early ==
           CASE a.cfg = "default" -> "none"
-            [] a.cfg = "press" -> IF presses # {} THEN "hold" ELSE "none"
+            [] a.cfg = "press" -> IF presses # {} /\ Bug # "ht_press_ignored" THEN "hold" ELSE "none"
             [] a.cfg = "release" -> IF permHold THEN "hold" ELSE "none"
             [] a.cfg = "custom" /\ a.ckind = "release-keys" -> relRes
             [] a.cfg = "custom" /\ a.ckind = "except-keys" ->
@@ -244,7 +247,8 @@ HandleHoldTap(w, queue) ==
         ri == SelectSeqIdx(queue, LAMBDA q : IsCorrRelease(w, q))
     IN IF early # "none" THEN [w |-> w1, res |-> early]
        ELSE IF ri # 0
-       THEN [w |-> w1, res |-> IF w1.timeout > SatSub(w1.delay, queue[ri].s) THEN "tap" ELSE "timeout"]
+       THEN [w |-> w1, res |-> IF (IF Bug = "ht_tap_ge" THEN w1.timeout >= SatSub(w1.delay, queue[ri].s)
+                                  ELSE w1.timeout > SatSub(w1.delay, queue[ri].s)) THEN "tap" ELSE "timeout"]
        ELSE IF w1.timeout = 0 /\ ~skipTimeout THEN [w |-> w1, res |-> "timeout"]
        ELSE [w |-> w1, res |-> "none"]
 
@@ -397,7 +401,7 @@ TickWt(w0, queue, aq) ==
          LET a == Act[w.c]
              r == HandleTapDance(w, w.ntaps, Len(a.acs), queue)
              w1 == [w EXCEPT !.pql = Len(r.queue)]
-             idx == SatSub(Min(r.ntaps, Len(a.acs)), 1)
+             idx == IF Bug = "td_off_by_one" THEN Min(r.ntaps, Len(a.acs) - 1) ELSE SatSub(Min(r.ntaps, Len(a.acs)), 1)
              w2 == IF r.res # "none" THEN [w1 EXCEPT !.tap = a.acs[idx + 1]] ELSE w1
              w3 == IF r.ntaps > w.ntaps THEN [w2 EXCEPT !.timeout = a.timeout] ELSE w2
          IN [w |-> [w3 EXCEPT !.ntaps = r.ntaps], queue |-> r.queue, aq |-> aq, res |-> r.res,
